@@ -59,7 +59,7 @@ def main():
     # ---- 1+2: build everything under the build lock
     with C.BuildLock():
         tr_ok = C.run_translators(log)
-        obligations, broken = C.audit(prop, P["modules"], log)
+        obligations, broken = C.audit(prop, P["modules"], log, recheck=(tier == "thorough"))
         drv_ok = C.driver_build(log)
         har_ok = C.cargo_build(log)
         rel_ok = True
@@ -208,7 +208,10 @@ def main():
     samples += [{"obligation": n} for n in obligations[:5]]
     coverage = {
         "obligations": len(obligations), "discharged": len(obligations) - len(broken),
-        "checker_cmd": "cd lean && lake build " + " ".join(P["modules"]) + " && lake env lean .audit/Audit_%s.lean  # collectAxioms per theorem" % prop,
+        "checker_cmd": "cd lean && lake build " + " ".join(P["modules"])
+                       + (" && lake env leanchecker " + " ".join(P["modules"]) if tier == "thorough" else "")
+                       + " && lake env lean .audit/Audit_%s.lean  # collectAxioms per theorem" % prop,
+        "olean_rechecked_by_leanchecker": bool(tier == "thorough" and not broken and any(l.startswith("[leanchecker") and l.endswith("rc=0") for l in log)),
         "trusted_base": P["trusted"],
         "theorems": obligations, "broken_theorems": broken,
         "evaluations": len(run_cases) + len(id_orcs), "distinct_nontrivial": len(seen_nt),
